@@ -2,8 +2,11 @@ package main
 
 import (
 	"bytes"
+	"errors"
 	"sort"
 	"strings"
+
+	v2types "github.com/aws/aws-sdk-go-v2/service/dynamodb/types"
 
 	"github.com/truora/minidyn/interpreter/language"
 )
@@ -20,3 +23,7 @@ func canonKeysOnly(it Item) Item {
 }
 
 func IsReservedUpper(s string) bool { return language.IsReservedWord(strings.ToUpper(s)) }
+
+func asCCF(err error, target **v2types.ConditionalCheckFailedException) bool {
+	return errors.As(err, target)
+}
